@@ -43,6 +43,23 @@
 //       float blending is 0 (1) — the same float goes through the same rounding —, otherwise
 //       |ret - ((1-b) LB + b UB)| <= (|1-b| + |b| + 1)/2 + 4u(|1-b|(|LB|+w/2+1) + |b|(|UB|+w/2+1)):
 //       three roundings to integer plus the four float roundings of blendPlacement.
+// (c) control loop of GlobalPlacer::run (Lean model ColoVerif/Model/GlobalLoop.lean), per end-to-end case whose
+//     child process completed:
+//       gparams  the ints and doubles the loop reads, as exact dyadics
+//       gshape   hook-free: the callback kinds in order (L/U/P), whether placeGlobal returned or threw the
+//                non-finite error, and the number of loop iterations read from the progress log; the driver reads
+//                the decisions off the sequence, runs the model on them and must reproduce sequence, outcome, count
+//       gdrift   the KF-C06-1 classifier (driftOutOfBox below, exact integer arithmetic on the parameters) at
+//                k = 0, the updates of this run, the step limit, and around the first k it turns true; the driver
+//                answers with the model's `driftOutOfBox`
+//       ginit/gstep/gexit/gend  with hook H5 (fixes/hook-h5-global-loop-log.diff; detected at compile time): the
+//                per-iteration floats lb, ub, dist, gap, penalty_, penaltyCutoffDistance_, approximationDistance_,
+//                nextPenaltyUpdateDistance and the stop reason.  The driver replays ub/lb/dist through the model
+//                with IEEE roundings; impl.txt states what the code did (callback order, exit reason, iterations,
+//                updates, step_ at exit) and expects every logged float to be reproduced bit for bit
+//                (init-equal vars-equal pud-equal gap-equal) and the closed forms over Rat to be within
+//                X_k((1+eps)^(k+1)-1), eps = 2^-24+2^-53+2^-77 (bound-ok; bound-skipped when some logged value is
+//                not a normal float: the relative error bound of a rounding does not hold there).
 #include <algorithm>
 #include <climits>
 #include <cmath>
@@ -55,9 +72,12 @@
 #include <thread>
 #include <unistd.h>
 
+#include <boost/multiprecision/cpp_int.hpp>
+
 #include "common/circuit.hpp"
 #include "common/harness.hpp"
 #include "place_global/density_grid.hpp"
+#include "place_global/place_global.hpp"  // defines COLOQUINTE_VERIF_HAS_H5 when hook H5 is in the tree
 
 using namespace coloquinte;
 
@@ -351,7 +371,7 @@ static float penaltyAfter(const ColoquinteParameters &p, long long updates) {
 // KF-C06-1 classifier.  GlobalPlacer::run multiplies penalty_, penaltyCutoffDistance_ and
 // approximationDistance_ by their update factors once per loop step, without bound.  The effective
 // knobs after k updates are recomputed here from the parameters alone (penalty with the C++'s float
-// recurrence, the two distances in units of the average cell length); the finding applies iff they
+// recurrence for the text, exactly for the verdict; the two distances in units of the average cell length); the finding applies iff they
 // have left the numeric box of the C06 statement (distances >= 0.1; the parameter check itself
 // refuses approximation distances above 1e3) or the penalty-to-cutoff ratio — the weight of the
 // penalty terms in the linear system — has reached 2^64 ~ sqrt(FLT_MAX), from where its square is
@@ -386,14 +406,65 @@ static bool hasFloatingComponent(const Circuit &c) {
   return false;
 }
 
+// exact dyadic numbers m * 2^e (every float/double is one; products are exact)
+using BigInt = boost::multiprecision::cpp_int;
+struct Dy { BigInt m; long e; };
+static Dy dyOf(double v) {
+  if (v == 0.0 || !std::isfinite(v)) return {0, 0};
+  int e;
+  double m = std::frexp(v, &e);
+  long long mant = (long long)std::ldexp(m, 53);
+  return {BigInt(mant), (long)e - 53};
+}
+static Dy mulDy(const Dy &a, const Dy &b) { return {a.m * b.m, a.e + b.e}; }
+static int cmpDy(const Dy &a, const Dy &b) {  // sign of a - b
+  long e = std::min(a.e, b.e);
+  BigInt x = a.m << (a.e - e), y = b.m << (b.e - e);
+  return x < y ? -1 : (x > y ? 1 : 0);
+}
+// the loop variables after k updates in exact arithmetic, in units of the average cell length
+struct DriftVars { Dy pen, cut, apx; };
+static DriftVars driftInit(const ColoquinteParameters &p) {
+  const auto &gp = p.global;
+  return {dyOf(gp.penalty.initialValue), dyOf(gp.penalty.cutoffDistance), dyOf(gp.continuousModel.approximationDistance)};
+}
+static void driftStep(const ColoquinteParameters &p, DriftVars &v) {
+  const auto &gp = p.global;
+  v.pen = mulDy(v.pen, dyOf(gp.penalty.updateFactor));
+  v.cut = mulDy(v.cut, dyOf(gp.penalty.cutoffDistanceUpdateFactor));
+  v.apx = mulDy(v.apx, dyOf(gp.continuousModel.approximationDistanceUpdateFactor));
+}
+// KF-C06-1 classifier (= GlobalLoop.driftOutOfBox of the Lean model, compared per case by the `gdrift` op):
+// apx < 1/10 or apx > 1000 or cut < 1/10 or pen >= 2^128 or pen >= 2^64 cut or 2^24 pen <= cut
+static bool outOfBox(const DriftVars &v) {
+  const Dy one{1, 0};
+  return cmpDy(Dy{v.apx.m * 10, v.apx.e}, one) < 0 || cmpDy(Dy{1000, 0}, v.apx) < 0 || cmpDy(Dy{v.cut.m * 10, v.cut.e}, one) < 0 ||
+         cmpDy(Dy{1, 128}, v.pen) <= 0 || cmpDy(Dy{v.cut.m, v.cut.e + 64}, v.pen) <= 0 || cmpDy(Dy{v.pen.m, v.pen.e + 24}, v.cut) <= 0;
+}
+static bool driftOutOfBox(const ColoquinteParameters &p, long long k) {
+  DriftVars v = driftInit(p);
+  for (long long i = 0; i < k; ++i) driftStep(p, v);
+  return outOfBox(v);
+}
+// first k in [0, maxK] with the classifier true, or -1
+static long long firstDrift(const ColoquinteParameters &p, long long maxK) {
+  DriftVars v = driftInit(p);
+  for (long long k = 0; k <= maxK; ++k) {
+    if (outOfBox(v)) return k;
+    driftStep(p, v);
+  }
+  return -1;
+}
+
 struct Drift { bool outOfBox = false; std::string text; };
 static Drift driftAfter(const ColoquinteParameters &p, long long k) {
   const auto &gp = p.global;
+  // the text shows approximate values; the verdict is exact
   double pen = penaltyAfter(p, k);
   double apx = gp.continuousModel.approximationDistance * std::pow(gp.continuousModel.approximationDistanceUpdateFactor, (double)k);
   double cut = gp.penalty.cutoffDistance * std::pow(gp.penalty.cutoffDistanceUpdateFactor, (double)k);
   Drift d;
-  d.outOfBox = apx < 0.1 || apx > 1.0e3 || cut < 0.1 || !(pen / cut < 18446744073709551616.0) || pen / cut <= 1.0 / 16777216.0;
+  d.outOfBox = driftOutOfBox(p, k);
   std::ostringstream os;
   os << "penalty " << pen << ", cutoff distance " << cut << ", approximation distance " << apx
      << (d.outOfBox ? " (outside the numeric box)" : " (inside the numeric box)");
@@ -577,8 +648,31 @@ static volatile long long *sharedProgress() {
   return p;
 }
 
+// a double as "mantissa exp2"; "inf 0", "-inf 0", "nan 0" for the non-finite ones
+static std::string dyTok(double v) {
+  if (std::isnan(v)) return "nan 0";
+  if (std::isinf(v)) return v > 0 ? "inf 0" : "-inf 0";
+  return vc::exactDouble(v);
+}
+
+#ifdef COLOQUINTE_VERIF_HAS_H5
+// hook H5: one "H <kind> <values as dyadics>" line per call, written to the child's result stream
+static std::ostream *hookOs = nullptr;
+static void onGlobalLoopHook(const char *kind, const double *v, int n) {
+  if (!hookOs) return;
+  *hookOs << "H " << kind;
+  for (int i = 0; i < n; ++i) *hookOs << " " << dyTok(v[i]);
+  *hookOs << "\n";
+}
+#endif
+
 // runs in the forked child; writes "F <what>" per failure and one "S ..." statistics line
 static void runPlacement(Case &cs, std::ostream &os) {
+#ifdef COLOQUINTE_VERIF_HAS_H5
+  hookOs = &os;
+  coloquinte::verif::onGlobalLoop = &onGlobalLoopHook;
+#endif
+  std::string seq;  // the callback kinds in order: L(owerBound) U(pperBound) P(enaltyUpdate) D(etailed)
   // the library reports progress on stdout: kept in an unnamed temporary file, read back below for
   // the measured distribution (steps run, zero wirelength) and for the known-finding classifier (a
   // zero-wirelength run is never attributed to KF-C06-1) — never to accept a run
@@ -636,6 +730,7 @@ static void runPlacement(Case &cs, std::ostream &os) {
   };
   PlacementCallback cb = [&](PlacementStep st) {
     mix((long long)st);
+    seq += st == PlacementStep::LowerBound ? 'L' : (st == PlacementStep::UpperBound ? 'U' : (st == PlacementStep::PenaltyUpdate ? 'P' : 'D'));
     for (int i = 0; i < n; ++i) { mix(c.cellX()[i]); mix(c.cellY()[i]); }
     if (st == PlacementStep::LowerBound) {
       ++nLB;
@@ -669,15 +764,18 @@ static void runPlacement(Case &cs, std::ostream &os) {
   } catch (const std::exception &e) {
     // the only error the statement's domain can meet is the non-finite check after a lower-bound solve
     inLB = std::string(e.what()).find("non-finite") != std::string::npos;
+    const bool inLBwas = inLB;  // the error of checkFinitePlacement (raised right after a lower-bound solve)
     fail(std::string("placeGlobal raised ") + vc::exClass(e) + ": " + e.what());
     inLB = false;
     os << "X " << nLB << " " << nUB << "\n";
+    os << "Q " << (inLBwas ? "throw" : "other") << " " << seq << "\n";
     os << "S " << nLB << " " << nUB << " " << nOther << " " << maxAbs << " 0\n";
     mix(-1);
     logStats();
     return;
   }
   sane("after return");
+  os << "Q ret " << seq << "\n";
   for (int i = 0; i < n; ++i) { mix(c.cellX()[i]); mix(c.cellY()[i]); }
   logStats();
   int moved = 0, nB = 0;
@@ -752,6 +850,142 @@ static std::unique_ptr<Circuit> parseCircuit(const std::vector<std::string> &lin
   circ->setRows(rows);
   for (auto &nt : nets) circ->addNet(nt.c, nt.x, nt.y);
   return circ;
+}
+
+// ------------------------------------------------------------------ part (c): the control loop of GlobalPlacer::run
+
+static std::vector<std::string> splitWs(const std::string &l) {
+  std::istringstream is(l);
+  std::vector<std::string> v;
+  std::string t;
+  while (is >> t) v.push_back(t);
+  return v;
+}
+struct Tok2 {  // one logged double: its two tokens and its value
+  std::string m, e;
+  double value() const {
+    if (m == "nan") return std::nan("");
+    if (m == "inf") return INFINITY;
+    if (m == "-inf") return -INFINITY;
+    return std::ldexp((double)atoll(m.c_str()), atoi(e.c_str()));
+  }
+  std::string str() const { return m + " " + e; }
+};
+static std::vector<Tok2> pairsOf(const std::vector<std::string> &w, size_t from) {
+  std::vector<Tok2> v;
+  for (size_t i = from; i + 1 < w.size(); i += 2) v.push_back({w[i], w[i + 1]});
+  return v;
+}
+static bool normalFloat(double v) { return std::isfinite(v) && std::fabs(v) >= std::ldexp(1.0, -126); }
+
+// `res`: what the child wrote.  Emits the g* ops and what the implementation answered.
+static void emitLoopTie(vh::Out &out, const Case &cs, const std::string &res) {
+  const auto &gp = cs.params.global;
+  std::string how, seq;
+  long long nStepsLog = -1;
+  bool haveQ = false;
+  std::vector<Tok2> init, exitRec;
+  std::vector<std::vector<Tok2>> steps;
+  {
+    std::istringstream is(res);
+    std::string ln;
+    while (std::getline(is, ln)) {
+      std::vector<std::string> w = splitWs(ln);
+      if (w.empty()) continue;
+      if (w[0] == "Q" && w.size() >= 2) { haveQ = true; how = w[1]; seq = w.size() >= 3 ? w[2] : ""; }
+      else if (w[0] == "L" && w.size() >= 2) nStepsLog = atoll(w[1].c_str());
+      else if (w[0] == "H" && w.size() >= 2) {
+        if (w[1] == "init") init = pairsOf(w, 2);
+        else if (w[1] == "step") steps.push_back(pairsOf(w, 2));
+        else if (w[1] == "exit") exitRec = pairsOf(w, 2);
+      }
+    }
+  }
+  if (!haveQ || how == "other" || seq.find('D') != std::string::npos) { out.count("loop_cases_skipped"); return; }
+  const long long maxIter = gp.maxNbSteps - gp.nbInitialSteps;
+  out.ops << "gparams " << gp.nbInitialSteps << " " << gp.maxNbSteps << " " << gp.nbStepsBeforeRoughLegalization;
+  for (double v : {gp.gapTolerance, gp.distanceTolerance, gp.penaltyUpdateDistance, gp.penaltyUpdateBackoff, gp.penalty.initialValue,
+                   gp.penalty.updateFactor, gp.penalty.cutoffDistance, gp.penalty.cutoffDistanceUpdateFactor,
+                   gp.continuousModel.approximationDistance, gp.continuousModel.approximationDistanceUpdateFactor})
+    out.ops << " " << vc::exactDouble(v);
+  out.ops << "\n";
+  // hook-free: callback order, outcome, iterations
+  out.ops << "gshape " << seq << " " << how << "\n";
+  out.impl << "shape " << seq << " " << (how == "ret" ? "returned" : "threw") << " iterations=" << nStepsLog << "\n";
+  out.count("loop_shape_cases");
+  // classifier
+  {
+    long long nU = std::count(seq.begin(), seq.end(), 'U');
+    long long first = firstDrift(cs.params, maxIter);
+    std::set<long long> ks = {0, std::max(0LL, nU - 2), std::max(0LL, nU - 1), maxIter};
+    if (first >= 0) { ks.insert(first); if (first > 0) ks.insert(first - 1); }
+    out.ops << "gdrift";
+    out.impl << "drift";
+    for (long long k : ks) {
+      out.ops << " " << k;
+      bool v = driftOutOfBox(cs.params, k);
+      out.impl << " " << k << ":" << (v ? 1 : 0);
+      out.count(v ? "loop_drift_true_points" : "loop_drift_false_points");
+    }
+    out.ops << "\n";
+    out.impl << "\n";
+    if (first >= 0) out.count("loop_drift_reached_within_step_limit");
+  }
+#ifdef COLOQUINTE_VERIF_HAS_H5
+  // the H5 log
+  if (!init.empty()) {
+    out.ops << "ginit";
+    for (auto &t : init) out.ops << " " << t.str();
+    out.ops << "\n";
+  }
+  bool finiteInputs = init.size() < 2 || (std::isfinite(init[0].value()) && std::isfinite(init[1].value()));
+  bool allNormal = true;
+  for (auto &st : steps) {
+    if (st.size() != 10) { out.count("loop_bad_step_record"); continue; }
+    out.ops << "gstep " << (long long)st[0].value();
+    for (int i = 1; i <= 8; ++i) out.ops << " " << st[i].str();
+    out.ops << " " << (long long)st[9].value() << "\n";
+    for (int i : {1, 2, 3}) finiteInputs = finiteInputs && std::isfinite(st[i].value());
+    for (int i : {5, 6, 7}) allNormal = allNormal && normalFloat(st[i].value());
+  }
+  if (exitRec.size() == 7) {
+    out.ops << "gexit " << (long long)exitRec[0].value() << " " << (long long)exitRec[1].value();
+    for (int i = 2; i < 7; ++i) out.ops << " " << exitRec[i].str();
+    out.ops << "\n";
+    finiteInputs = finiteInputs && std::isfinite(exitRec[2].value());
+    for (int i : {3, 4, 5}) allNormal = allNormal && normalFloat(exitRec[i].value());
+  }
+  out.ops << "gend " << seq << " " << how << "\n";
+  out.count("loop_replay_cases");
+  out.count("loop_replay_steps", (long long)steps.size());
+  const long long n = steps.size();
+  if (init.empty()) {
+    out.impl << "loop " << seq << " exception iterations=0 updates=0 step=- init-none\n";
+    out.count("loop_exit_exception_initial");
+  } else if (!finiteInputs) {
+    out.impl << "loop nonfinite-input\n";
+    out.count("loop_nonfinite_input");
+  } else {
+    std::string ex, stepAt = "-";
+    long long updates = 0;
+    if (how == "throw") { ex = "exception"; updates = std::max(0LL, n - 1); }
+    else if (exitRec.size() == 7 && exitRec[1].value() == 1.0) { ex = "steplimit"; updates = n; stepAt = std::to_string((long long)exitRec[0].value()); }
+    else {
+      long long why = n > 0 && steps[n - 1].size() == 10 ? (long long)steps[n - 1][9].value() : 0;
+      ex = why == 1 ? "stop:nowirelength" : (why == 2 ? "stop:gap" : (why == 3 ? "stop:distance" : "stop:none"));
+      updates = std::max(0LL, n - 1);
+      if (exitRec.size() == 7) stepAt = std::to_string((long long)exitRec[0].value());
+    }
+    out.impl << "loop " << seq << " " << ex << " iterations=" << n << " updates=" << updates << " step=" << stepAt
+             << " init-equal vars-equal pud-equal gap-equal " << (allNormal ? "bound-ok" : "bound-skipped") << "\n";
+    out.count("loop_exit_" + ex);
+    out.count(allNormal ? "loop_bound_checked" : "loop_bound_skipped_subnormal_or_overflow");
+    if (seq.find('P') != std::string::npos) out.count("loop_with_penalty_update_callbacks");
+  }
+#else
+  (void)init; (void)exitRec; (void)steps;
+  out.count("loop_replay_unavailable_no_hook_H5");
+#endif
 }
 
 static std::ofstream *digestOut = nullptr;  // "<case> <status> <loop steps> <zero wirelength> <digest>" per end-to-end case
@@ -849,6 +1083,7 @@ static void oracleCase(vh::Out &out, uint64_t seed, long long k, bool bigger, co
       else if (xl.rfind("X ", 0) == 0) { ss >> a >> xUB; }
     }
   }
+  emitLoopTie(out, cs, res);
   while (std::getline(is, ln)) {
     if (ln.rfind("F ", 0) == 0) {
       std::istringstream fs(ln.substr(2));
